@@ -10,10 +10,10 @@ TLA = "explicit TLA+ specification + TLC"
 
 CHECKS = {
  "C02": dict(cat="proof", tech="TLA+ tableau specification: order conditions as integer identities discharged by Apalache; bound to the code by tableau extraction (impulse probing of the real steppers) validated by a TLC trace spec",
-   text="Exact rational Butcher tableaux in TLA+ (spec/tableaux, generated from checks/tableaux_gen.py); every rooted-tree order condition up to p (RK4 p=4, RK23 p=3, DOPRI5 p=5), the failing tree of order p+1, the embedded-estimator conditions, and for DOP853 row sums + quadrature conditions within 1e-25 are discharged by Apalache; the coefficients the real steppers apply (c, A, b, error-estimator sums, source constants) are extracted by probing and compared with the specification to <=1 ulp by a TLC trace spec.",
-   note="NOT decided: the ~190 remaining DOP853 tree conditions of order <=8 (literature), Radau's Pade clause, the tol^(-1/q) growth law, Radau/BDF (numeric). Trusted: Apalache/Z3, TLC, the generator's expansion tree -> integer identity, python Fraction arithmetic for float->rational distances.",
+   text="Exact rational Butcher tableaux in TLA+ (spec/tableaux, generated from checks/tableaux_gen.py); every rooted-tree order condition up to p (RK4 p=4, RK23 p=3, DOPRI5 p=5), the failing tree of order p+1, the embedded-estimator conditions, and for DOP853 row sums + quadrature conditions within 1e-25 are discharged by Apalache; the coefficients the real steppers apply (c, A, b, error-estimator sums, source constants) are extracted by probing and compared with the specification to <=1 ulp by a TLC trace spec - on plain steps, on the shortened landing step, on the accepted retry after a rejected attempt and with dense_output off. Radau IIA: the nodes as roots of 10c^2-8c+1 (bracketed to 1e-30) and R(z) as the (2,3) Pade approximant of exp are Apalache identities; every Newton triple of recorded runs evaluates at x+c_i h (3 ulp), y'=t^k (k<=4) is integrated exactly, and every accepted step of adaptive runs on y'=lambda*y equals R(h*lambda) in exact rational arithmetic (1.2e-10 relative).",
+   note="NOT decided: the ~190 remaining DOP853 tree conditions of order <=8 (literature), the tol^(-1/q) growth law, Radau's order on nonlinear problems, BDF (numeric). Trusted: Apalache/Z3, TLC, the generator's expansion tree -> integer identity, python Fraction arithmetic for float->rational distances.",
    ref="5 (C02), 3.4"),
- "C03": dict(cat="model_checking", tech=TLA + " (stepper/handler state machines) with trace validation of recorded solve_ivp runs and replay of TLC-generated handler scenarios",
+ "C03": dict(cat="model_checking", tech=TLA + " (stepper/handler state machines, implementation-shaped Radau/BDF loop models) with trace validation of recorded solve_ivp runs and replay of TLC-generated handler scenarios",
    text="Interval discipline and honest status are contract operators of the TLA+ specification (spec/stepper/StepperContract.tla, spec/handler/HandlerContract.tla). TLC checks the bounded stepper model (all six variants, every relation of first_step/max_step/budget to the span) against them and validates recorded runs of the real solve_ivp (corner sweep + seeded random sweep, both directions, all methods): every ode/jac/events time within [x0,xend], samples start at x0 and are strictly monotone, Success iff the interval was covered, UserInterrupt iff a terminal event stopped the run, shapes, finiteness.",
    note="Times enter TLC as ranks of the recorded doubles plus hex tokens; the xend +/- 8 ulp marks and finiteness flags are computed by the recorder (trusted). Bounded model: span <= 3 coarse steps.",
    ref="5 (C03)"),
@@ -30,7 +30,7 @@ CHECKS = {
    note="The endpoint-equality clause uses a numeric predicate computed by the recorder (|delta| <= 64 eps (|y_old|+|y_new|), 1e-9 relative for BDF) - exploration-level for that clause; chain/coverage/error classes are order facts decided by TLC.",
    ref="5 (C06)"),
  "C07": dict(cat="proof", tech="TLA+ tableau specification: continuous order conditions as coefficient-wise integer identities discharged by Apalache; bound to the code by dense-weight extraction validated by a TLC trace spec",
-   text="Continuous weights b_j(theta) of RK4 (cubic Hermite), RK23 and DOPRI5 as rational polynomials in TLA+; all continuous order conditions up to q (3,3,4), b_j(0)=0, b_j(1)=b_j discharged by Apalache; the b_j(theta) the real code computes (StepInterpolant and Solution::sol, h=+-1) are extracted and compared with the specification within 16 ulp by a TLC trace spec. DOP853: bushy-tree continuous conditions to order 7 within 1e-24 and conformance of the extracted weights to the published table.",
+   text="Continuous weights b_j(theta) of RK4 (cubic Hermite), RK23 and DOPRI5 as rational polynomials in TLA+; all continuous order conditions up to q (3,3,4), b_j(0)=0, b_j(1)=b_j discharged by Apalache; the b_j(theta) the real code computes (StepInterpolant and Solution::sol, h=+-1) are extracted and compared with the specification within 16 ulp by a TLC trace spec. DOP853: bushy-tree continuous conditions to order 7 within 1e-24 and conformance of the extracted weights to the published table. Sparse-output mode (XOut, dense_output off) and the landing step are probed too. Restart probes (Trace_Stepper clause C07/restart): at every callback of recorded low-level runs of the explicit methods - runs with rejections and runs of more than 1000 steps - a freshly built solver redoes the step and must hand out the same polynomial (1e-9).",
    note="NOT decided: the remaining continuous tree conditions of DOP853, Radau, BDF (numeric).",
    ref="5 (C07), 3.4"),
  "C08": dict(cat="model_checking", tech=TLA + ": bounded-exhaustive handler model with event functions, replayed into the real DefaultSolOut (real Brent code), traces validated by TLC; plus recorded solve_ivp runs",
@@ -47,16 +47,16 @@ CHECKS = {
    text="C11 contract operators (spec/stepper/StepperContract.tla): every accepted step <= max_step (final step <= 1.01 max_step), first trial evaluation at x0 + c2*first_step, first reported interval = first_step if accepted, nstep <= max_steps+1, NeedLargerNMax iff the budget ran out, budgeted run = bit-identical prefix of the unbudgeted run. TLC checks the bounded stepper model and validates recorded runs of the real solvers (marks xold +/- max_step inserted into the ranked time set).",
    note="Marks and 4-ulp windows are computed by the recorder (trusted).", ref="5 (C11)"),
  "C12": dict(cat="model_checking", tech=TLA + ": relational trace validation (observer mode) of recorded run families against the Level-A contract; Level-B stepper model shows the loop never reads observer state",
-   text="Non-interference is a relational contract clause (spec/stepper/StepperContract.tla Rel_Observer / Rel_Equal / Rel_EqualCb): for every case the plain run and the runs with t_eval, dense_output, non-terminal events (all subsets in thorough), a repeat, t_eval placed next to accepted step ends, and low-level solvers built with dense_output on/off are recorded, and TLC checks token equality of the complete stepper evaluation stream (times and states), of every reported step state, and of nfev/njev/nstep/naccpt/nrejct. The Level-B model Stepper.tla has no variable through which the output handler could influence the loop other than the callback flag.",
+   text="Non-interference is a relational contract clause (spec/stepper/StepperContract.tla Rel_Observer / Rel_Equal / Rel_EqualCb): for every case the plain run and the runs with t_eval, dense_output, non-terminal events (all subsets in thorough), a repeat, t_eval placed next to accepted step ends / ending inside the span / empty, systems of 4-12 equations with earlier results kept alive, and low-level solvers built with dense_output on/off are recorded, and TLC checks token equality of the complete stepper evaluation stream (times and states), of every reported step state, and of nfev/njev/nstep/naccpt/nrejct; runs of more than 100000 steps are compared by the recorder and enter the trace as `fact` lines. The Level-B model Stepper.tla has no variable through which the output handler could influence the loop other than the callback flag.",
    note="Bit-identity is meaningful because one thread, deterministic arithmetic. No separate self-composition model was built (DESIGN.md 13).", ref="5 (C12), 13"),
  "C13": dict(cat="model_checking", tech=TLA + ": Tolerance aliasing model + relational trace validation under exact symmetries",
    text="Tolerance cell semantics and Radau's adjust loop are modelled (spec/stepper/Tolerance.tla: every component transformed exactly once for both representations); on the real code, pairs of runs related by time reflection, 2^k scaling, scalar-vs-vector tolerance and duplication into 2/4 copies are recorded, mapped through the inverse symmetry and required by TLC to be token-equal.",
    note="Only relations exact in IEEE arithmetic are checked (no 'up to rounding' relations).", ref="5 (C13)"),
  "C15": dict(cat="model_checking", tech=TLA + ": matrix-read model at the mass/Jacobian use sites + relational trace validation across storages",
-   text="'The matrix the solver reads equals the matrix the user means' is an invariant of the storage model; on the real code, runs differing only in mass storage (Identity/Full/Banded), Jacobian storage (Full/Banded), absence of a mass matrix, and 2^k*I mass with 2^k*f are recorded in pairs and TLC requires token-equal ode streams and outputs (Radau and BDF, Options path and low-level builders).",
-   note="NOT decided: agreement 'within tolerance' with y'=M^-1 f for general M, DAE residuals, analytic-vs-FD Jacobian agreement (numeric).", ref="5 (C15)"),
+   text="'The matrix the solver reads equals the matrix the user means' is an invariant of the storage model; on the real code, runs differing only in mass storage (Identity/Full/Banded), Jacobian storage (Full/Banded), absence of a mass matrix, and 2^k*I mass with 2^k*f are recorded in pairs and TLC requires token-equal ode streams and outputs (Radau and BDF, Options path and low-level builders); non-identity masses (bi-/tridiagonal, with negative entries) in Full and one-/two-sided Banded storage, a Jacobian band narrower than the mass pattern; index-1 DAEs with the algebraic equation first / last (clause C15/dae: solved, constraint residual <= 1e3(rtol+atol) at every sample, agreement with the reduced ODE) and clause C15/mass_reference (wherever DOP853 solves y'=M^-1 f, Radau succeeds and agrees to 1e3(rtol+atol)) are recorder-computed facts.",
+   note="The two numeric clauses are facts computed by the recorder against DOP853 at 1e-11 (exploration-level for those clauses). NOT decided: analytic-vs-FD Jacobian agreement, general dense M beyond the listed patterns.", ref="5 (C15)"),
  "C16": dict(cat="model_checking", tech=TLA + ": DEC/SOL(+complex) transcribed over exact rationals; every enumerated system replayed into the real lu_decomp/lin_solve; TLC trace validation",
-   text="LU factorisation and solves are modelled action by action over exact rationals (spec/lu); the contract (singular iff exactly singular on dyadic paths, exact solution, multipliers <= 1, shape/pivot errors, only b modified) is checked by TLC for all small-integer matrices (2x2 over -2..2, 3x3 over -1..1; thorough 3x3 over -2..2 and complex 2x2) and every system is executed on the real code and validated by a TLC trace spec.",
+   text="LU factorisation and solves are modelled action by action over exact rationals (spec/lu); the contract (singular iff exactly singular on dyadic paths, exact solution, multipliers <= 1, shape/pivot errors, only b modified) is checked by TLC for all small-integer matrices (2x2 over -2..2, 3x3 over -1..1; thorough 3x3 over -2..2 and complex 2x2), their power-of-two row/column gradings (exact in binary floating point; tiny pivots in every position), seeded complex 3x3 / real 4x4, with the clauses pivot_max (the reported pivot row holds a largest entry of its column) and complex multipliers <= sqrt 2; every system is executed on the real code and validated by a TLC trace spec.",
    note="NOT decided: the backward-stability bound for float matrices of size 4..12 (numeric).", ref="5 (C16)"),
  "C17": dict(cat="model_checking", tech=TLA + ": data-layout model of Matrix vs dense-meaning contract; every enumerated case replayed into the real Matrix API; TLC trace validation",
    text="Matrix storage (Identity/Full/Banded, index map, all constructors, +,-,scalar ops, writes, is_identity) is modelled at the data-layout level (spec/matrix) and the contract is stated through the dense abstraction function; TLC checks all cases for n<=3 (thorough 4), all (ml,mu), all storage pairs, and each case is executed on the real Matrix with every entry read back (bit-exact small integers).",
@@ -108,6 +108,7 @@ def main():
         "setup_cmd": "cd /verif/harness && CARGO_NET_OFFLINE=true cargo build --release --offline --bins",
         "hooks": {
             "guard": "ivp_verif",
+            "what": "solve::solout::verif::Handler (public wrapper of the crate-private output handler); verif_trace (thread-local decision-point sink) + one-line reports in RADAU::solve and BDF::solve",
             "enable": "--cfg ivp_verif via /verif/harness/.cargo/config.toml rustflags; the harness crate depends on /repo by path and is rebuilt by every check",
             "baseline_off_cmd": "cd /repo && cargo test --workspace --no-fail-fast --offline",
             "source_commits": hook_commits,
